@@ -31,7 +31,7 @@ def run(ctx):
     texts = inputs(ctx, quick, rng)
     traces = []
     for t in texts:
-        tr = treerec.parse_trace(len(traces), t, rng, nav=NAV and len(t) <= 60, strs=True)
+        tr = treerec.parse_trace(len(traces), t, rng, nav=NAV and len(t) <= 60 and (quick or len(traces) % 4 == 0), strs=True)
         traces.append(tr)
         ctx.evals()
         if any(n['cls'] not in ('', 'Statement') for st in tr['stmts'] for n in st['nodes']):
